@@ -42,7 +42,7 @@ DOUBLE = TEMPLATES[0:1] + TEMPLATES[10:13] + TEMPLATES[16:18] + ["12:34:56", "T1
                                                               "2016-10-06/P1M", "2016/10/06 12:34", "2016-W40-4", "2016-280",
                                                               "12:"]
 OPTION_SETS = [{}, {"exact": True}, {"strict": False}, {"tz": "Europe/Paris"}, {"tz": "Europe/Pari"}, {"strict": False, "day_first": True},
-               {"strict": False, "year_first": False}, {"exact": True, "tz": "Europe/Paris"}]
+               {"strict": False, "year_first": False}, {"exact": True, "tz": "Europe/Paris"}, {"tz": None}]
 OK_TYPES = ("DateTime", "Date", "Time", "Duration", "Interval")
 
 
